@@ -192,7 +192,12 @@ Lemma local_le_effect : forall cs n i c l c' e o, local cs n i c l = (c', e, o) 
          \/ (find_le cs (k_peer ent) = None /\ o = []))).
 Proof.
   intros cs n i c l c' e o H.
-  destruct l; simpl in H; unfold_handlers H; break_all; inv_pairs;
+  assert (Hcig : forall cig cis, set_cig c cig cis = (c', e, o) -> c_le c' = c_le c /\ no_ctl o).
+  { unfold set_cig. intros cig cis Hc.
+    destruct (add_cis (set_cis c (filter (not_cig cig) (c_cis c))) cig cis) as [[c1 hs] ok] eqn:Ha.
+    inversion Hc; subst. apply add_cis_same in Ha. destruct Ha as [_ [Hle _]]. split; [exact Hle | intros ? ? ? []]. }
+  destruct l; simpl in H; try (left; eapply Hcig; eassumption); clear Hcig;
+    unfold_handlers H; break_all; inv_pairs;
     try (left; split; [reflexivity | solve_no_ctl]).
   all: right; match goal with
        | Hb : by_handle (c_le _) ?hh = Some ?ent |- _ => exists i0, hh, reason, ent
@@ -751,6 +756,9 @@ Proof.
         eapply sinv_ignore; eauto.
     + (* MTerm *)
       destruct (term_le_effect _ _ _ _ _ _ _ _ H3) as [-> Hle]. eapply sinv_terminate; eauto.
+    + destruct (other_le_effect _ _ _ _ _ _ _ H3 eq_refl eq_refl) as [Hle Ho]. apply Hneutral; auto.
+    + destruct (other_le_effect _ _ _ _ _ _ _ H3 eq_refl eq_refl) as [Hle Ho]. apply Hneutral; auto.
+    + destruct (other_le_effect _ _ _ _ _ _ _ H3 eq_refl eq_refl) as [Hle Ho]. apply Hneutral; auto.
     + destruct (other_le_effect _ _ _ _ _ _ _ H3 eq_refl eq_refl) as [Hle Ho]. apply Hneutral; auto.
     + destruct (other_le_effect _ _ _ _ _ _ _ H3 eq_refl eq_refl) as [Hle Ho]. apply Hneutral; auto.
     + destruct (other_le_effect _ _ _ _ _ _ _ H3 eq_refl eq_refl) as [Hle Ho]. apply Hneutral; auto.
